@@ -8,7 +8,6 @@ import (
 	"strconv"
 	"strings"
 
-	"github.com/pkg/errors"
 
 	"github.com/xelaj/mtproto/internal/mtproto/objects"
 )
@@ -85,7 +84,10 @@ func TryExpandError(errStr string) (nativeErrorName string, additionalData any) 
 	case reflect.Int:
 		var err error
 		additionalData, err = strconv.Atoi(trimmedData)
-		check(errors.Wrap(err, "error of parsing expected int value"))
+		if err != nil {
+			// parameter is absent or is not a number which we can use, so for us it's common error
+			return errStr, nil
+		}
 
 	case reflect.String:
 		additionalData = trimmedData
